@@ -65,8 +65,8 @@ func run(dir string, stdin *string, args ...string) Result {
 		switch args[i] {
 		case "-o", "--output", "--out", "--out-steps", "--out-states", "--log", "--log-file":
 			name := args[i+1]
-			if name == "" || name == "stdout" || name == "stderr" || name == "none" || name == "-" || strings.ContainsAny(name, "/\\") {
-				continue
+			if name == "" || name == "stdout" || name == "stderr" || name == "none" || name == "-" || strings.ContainsAny(name, "/\\") || !strings.Contains(name, ".") {
+				continue // not a file of the scratch directory, or a prefix of file names (`divide -o prefix`)
 			}
 			if _, err := os.Stat(filepath.Join(dir, name)); err != nil {
 				os.WriteFile(filepath.Join(dir, name), []byte(strings.Repeat("(stale,(content,of),(an,earlier),run)0.5:0.25;\n", 240)), 0o644)
